@@ -38,7 +38,7 @@ use crate::run::{self, Report, Tier};
 pub fn run(tier: Tier, seed: u64) -> i32 {
     let hp = prop();
     let mut rep = Report::new(hp.id, tier, seed, hp.level, hp.rule);
-    rep.rule.push_str("; plus the scripted 30-op history of C20 on sparse volumes of 4 GiB .. 2 TiB (and 4096-byte sectors up to the cluster limit) with the next-free hint at / near the last cluster: every device write must land in the cluster the independent 64-bit geometry assigns to the object being written (a byte offset that wraps at 2^32 lands in somebody else's cluster or in a reserved sector)");
+    rep.rule.push_str("; plus the scripted 47-op history of C20 on sparse volumes of 4 GiB .. 2 TiB (and 4096-byte sectors up to the cluster limit) with the next-free hint at / near the last cluster: every device write must land in the cluster the independent 64-bit geometry assigns to the object being written (a byte offset that wraps at 2^32 lands in somebody else's cluster or in a reserved sector)");
     for a in &hp.assumptions {
         rep.assume(a);
     }
@@ -73,7 +73,7 @@ pub fn run(tier: Tier, seed: u64) -> i32 {
             let vol = c20::large_vol(g, lcs[li].clone());
             let case = Case { vol: vol.clone(), ops: c20::scripted_ops(vol.cluster_size()) };
             let out = hist::eval_case(hp_ref, &case);
-            blk.record(&out, || serde_json::json!({"vol": vol, "ops": "scripted (30 ops)"}));
+            blk.record(&out, || serde_json::json!({"vol": vol, "ops": "scripted (47 ops)"}));
             out.violation.map(|m| run::Failure { message: m, case: serde_json::to_value(&case).unwrap(), kind: "history".into() })
         });
         rep.add(b);
